@@ -166,7 +166,7 @@ def part_alone(s):
     Le = np.linalg.norm(nodes[1:] - nodes[:-1], axis=1)
     mid = 0.5 * (nodes[1:] + nodes[:-1])
     me = surf["mrho"] * surf["wing_weight_ratio"] * A * Le
-    n = s["nfac"]
+    cur = dict(n=s["nfac"], fuel=s["fuel"], mp=None if not pmset else np.array(pm["point_masses"]), T=None if not pmset else np.array(pm["engine_thrusts"]), tag="")
     viol, val = [], 0
     wh = dict(model=s["model"], sym=sym)
 
@@ -178,7 +178,7 @@ def part_alone(s):
         sc = scale if scale is not None else max(np.abs(want).max(), 1e-300)
         e = np.abs(got - want).max() / sc
         if not e <= TOL:
-            viol.append(dict(sig=dict(oracle="conservation", observable=name, **wh, **kw_), msg="%s = %s, expected %s (rel %.2e)" % (name, np.array2string(got, precision=8), np.array2string(want, precision=8), e), measure=float(e)))
+            viol.append(dict(sig=dict(oracle="conservation", observable=name, **wh, **kw_, **({"point": cur["tag"]} if cur["tag"] else {})), msg="%s%s = %s, expected %s (rel %.2e)" % (cur["tag"] and "[live Problem, then %s] " % cur["tag"], name, np.array2string(got, precision=8), np.array2string(want, precision=8), e), measure=float(e)))
 
     def resultant(L, pts):
         F = L[:, :3].sum(axis=0)
@@ -186,48 +186,79 @@ def part_alone(s):
         return F, M
 
     mult = 2.0 if sym else 1.0
-    cmp("structural_mass", p["structural_mass"], [mult * me.sum()])
-    cmp("element_mass", p["element_mass"], me)
-    cg = (me[:, None] * mid).sum(axis=0) / me.sum()
-    if sym:
-        cg[1] = 0.0
-    cmp("cg_location", p["cg_location"], cg, max(np.abs(nodes).max(), 1.0))
-    Wtot = n * G0 * me.sum()
-    total = ext.copy()
-    if relief:
-        F, M = resultant(p["struct_states.struct_weight_loads"], nodes)
-        cmp("sum struct_weight_loads", F, [0, 0, -Wtot], abs(Wtot))
-        Mw = np.cross(mid, np.outer(me, [0, 0, -n * G0])).sum(axis=0)
-        cmp("moment struct_weight_loads", M, Mw, abs(Wtot) * np.abs(nodes).max())
-        total = ext + p["struct_states.struct_weight_loads"]
-    if s["fuel"] is not None:
-        vols = p["struct_setup.fuel_vols"]
-        cmp("fuel_vols", vols, Le * p["A_int"])
-        Wf = (s["fuel"] + s["reserve"]) * G0 * n / mult
-        L = p["struct_states.fuel_weight_loads"]
-        F, M = resultant(L, nodes)
-        cmp("sum fuel_weight_loads", F, [0, 0, -Wf], max(abs(Wf), 1.0))
-        Mf = np.cross(mid, np.outer(vols / vols.sum(), [0, 0, -Wf])).sum(axis=0)
-        cmp("moment fuel_weight_loads", M, Mf, max(abs(Wf), 1.0) * np.abs(nodes).max())
-        total = total + L
+    # absolute scales of the first point: identities at the later special points (zero thrust, zero load factor) are measured
+    # against the loads that were there a moment ago
+    W_scale = abs(s["nfac"]) * G0 * me.sum()
+    Wp_scale = 0.0 if not pmset else abs(s["nfac"]) * G0 * float(np.sum(pm["point_masses"]))
+    T_scale = 0.0 if not pmset else float(np.sum(pm["engine_thrusts"]))
+
+    def verify():
+        n = cur["n"]
+        cmp("structural_mass", p["structural_mass"], [mult * me.sum()])
+        cmp("element_mass", p["element_mass"], me)
+        cg = (me[:, None] * mid).sum(axis=0) / me.sum()
+        if sym:
+            cg[1] = 0.0
+        cmp("cg_location", p["cg_location"], cg, max(np.abs(nodes).max(), 1.0))
+        Wtot = n * G0 * me.sum()
+        total = ext.copy()
+        if relief:
+            F, M = resultant(p["struct_states.struct_weight_loads"], nodes)
+            cmp("sum struct_weight_loads", F, [0, 0, -Wtot], max(abs(Wtot), W_scale))
+            Mw = np.cross(mid, np.outer(me, [0, 0, -n * G0])).sum(axis=0)
+            cmp("moment struct_weight_loads", M, Mw, max(abs(Wtot), W_scale) * np.abs(nodes).max())
+            total = ext + p["struct_states.struct_weight_loads"]
+        if s["fuel"] is not None:
+            vols = p["struct_setup.fuel_vols"]
+            cmp("fuel_vols", vols, Le * p["A_int"])
+            Wf = (cur["fuel"] + s["reserve"]) * G0 * n / mult
+            L = p["struct_states.fuel_weight_loads"]
+            F, M = resultant(L, nodes)
+            cmp("sum fuel_weight_loads", F, [0, 0, -Wf], max(abs(Wf), 1.0))
+            Mf = np.cross(mid, np.outer(vols / vols.sum(), [0, 0, -Wf])).sum(axis=0)
+            cmp("moment fuel_weight_loads", M, Mf, max(abs(Wf), 1.0) * np.abs(nodes).max())
+            total = total + L
+        if pmset:
+            loc = np.array(pm["point_mass_locations"])
+            mp = cur["mp"]
+            T = cur["T"]
+            L = p["struct_states.loads_from_point_masses"]
+            F, M = resultant(L, nodes)
+            Wp = n * G0 * mp.sum()
+            cmp("sum loads_from_point_masses", F, [0, 0, -Wp], max(abs(Wp), Wp_scale), pm=s["pm"])
+            cmp("moment loads_from_point_masses", M, np.cross(loc, np.outer(mp, [0, 0, -n * G0])).sum(axis=0), max(abs(Wp), Wp_scale) * np.abs(loc).max(), pm=s["pm"])
+            total = total + L
+            L = p["struct_states.loads_from_thrusts"]
+            F, M = resultant(L, nodes)
+            cmp("sum loads_from_thrusts", F, [-T.sum(), 0, 0], max(T.sum(), T_scale), pm=s["pm"])
+            cmp("moment loads_from_thrusts", M, np.cross(loc, np.outer(T, [-1.0, 0, 0])).sum(axis=0), max(T.sum(), T_scale) * np.abs(loc).max(), pm=s["pm"])
+            total = total + L
+        cmp("total_loads", p["struct_states.total_loads"], total, max(np.abs(total).max(), np.abs(ext).max()))
+        if s["model"] == "wingbox":
+            vols = p["struct_setup.fuel_vols"]
+            want = vols.sum() - (3.0e3 + s["reserve"]) / mult / surf["fuel_density"]
+            cmp("fuel_vol_delta", p["fvd.fuel_vol_delta"], [want], max(abs(want), vols.sum()))
+
+    verify()
+    # the same LIVE Problem taken through special points, one input group at a time (every identity must hold at each):
+    # engines off (all thrusts exactly zero), then weightless (load factor exactly zero), then no payload / no fuel
+    trans = 1
+    seq = []
     if pmset:
-        loc = np.array(pm["point_mass_locations"])
-        mp = np.array(pm["point_masses"])
-        T = np.array(pm["engine_thrusts"])
-        L = p["struct_states.loads_from_point_masses"]
-        F, M = resultant(L, nodes)
-        Wp = n * G0 * mp.sum()
-        cmp("sum loads_from_point_masses", F, [0, 0, -Wp], abs(Wp), pm=s["pm"])
-        cmp("moment loads_from_point_masses", M, np.cross(loc, np.outer(mp, [0, 0, -n * G0])).sum(axis=0), abs(Wp) * np.abs(loc).max(), pm=s["pm"])
-        total = total + L
-        L = p["struct_states.loads_from_thrusts"]
-        F, M = resultant(L, nodes)
-        cmp("sum loads_from_thrusts", F, [-T.sum(), 0, 0], T.sum(), pm=s["pm"])
-        cmp("moment loads_from_thrusts", M, np.cross(loc, np.outer(T, [-1.0, 0, 0])).sum(axis=0), T.sum() * np.abs(loc).max(), pm=s["pm"])
-        total = total + L
-    cmp("total_loads", p["struct_states.total_loads"], total, np.abs(total).max())
-    if s["model"] == "wingbox":
-        vols = p["struct_setup.fuel_vols"]
-        want = vols.sum() - (3.0e3 + s["reserve"]) / mult / surf["fuel_density"]
-        cmp("fuel_vol_delta", p["fvd.fuel_vol_delta"], [want], max(abs(want), vols.sum()))
-    return dict(viol=viol, nontrivial=bool(me.sum() > 0), digest=digest_arrays(p["struct_states.total_loads"]), transitions=1, validated=val)
+        seq.append(("engines off", dict(engine_thrusts=np.zeros(pmset["n"]))))
+    seq.append(("load factor 0", dict(load_factor=0.0)))
+    seq.append(("load factor restored", dict(load_factor=s["nfac"])))
+    if pmset:
+        seq.append(("point masses 0", dict(point_masses=np.zeros(pmset["n"]))))
+    if s["fuel"] is not None:
+        seq.append(("fuel mass 0", dict(fuel_mass=0.0)))
+    for tag, chg in seq:
+        for k, v in chg.items():
+            p.set_val(k, v)
+            key = {"engine_thrusts": "T", "load_factor": "n", "point_masses": "mp", "fuel_mass": "fuel"}[k]
+            cur[key] = np.asarray(v, float) if key in ("T", "mp") else float(v)
+        cur["tag"] = tag
+        p.run_model()
+        trans += 1
+        verify()
+    return dict(viol=viol, nontrivial=bool(me.sum() > 0), digest=digest_arrays(p["struct_states.total_loads"]), transitions=trans, validated=val)
